@@ -1101,9 +1101,67 @@ fn precision_grid(ctx: &Ctx) {
     }
 }
 
+/// Long runs. The reporter counts a chain as finished when the count carried by a statistics message EQUALS the run's
+/// total (the premise 'the final message carries n = total' of the abstract model, layer 2). Counts are exact for small
+/// totals by the conformance replay; here the premise is checked across the first integer limit a float-typed or
+/// narrowed counter meets: (a) a per-chain tracker fed 2^24+3 states reports exactly k at every k around 2^24;
+/// (b, thorough) a real run_progress of 2^24+8 transitions of a trivial chain returns, with run's draws.
+fn long_runs(ctx: &Ctx) {
+    use mini_mcmc::stats::ChainTracker;
+    let lim: u64 = 1 << 24;
+    let case = json!({"layer": "long", "what": "tracker count across 2^24"});
+    ctx.evals(1);
+    ctx.state(hash_str(&case.to_string()));
+    let r = catch(|| {
+        let mut t = ChainTracker::new(1, &[0.0f32]);
+        let mut bad: Option<(u64, u64)> = None;
+        for k in 1..=lim + 3 {
+            let x = [(k % 7) as f32];
+            t.step(&x).map_err(|e| e.to_string())?;
+            if k + 2 >= lim && bad.is_none() {
+                let n = t.stats().n;
+                if n != k {
+                    bad = Some((k, n));
+                }
+            }
+        }
+        Ok::<_, String>(bad)
+    });
+    ctx.transitions(lim + 3);
+    match r {
+        Err(m) | Ok(Err(m)) => ctx.violation(Violation::new("C10:panic(tracker)", format!("ChainTracker::step failed in a long run: {m}"), case)),
+        Ok(Ok(Some((k, n)))) => ctx.violation(Violation::new(
+            "C10:final-count-wrong(long run)",
+            format!("after {k} updates the per-chain tracker reports count {n}: the reporter, which waits for a message whose count equals the total, would never see a run of {k} transitions finish"),
+            case,
+        )),
+        Ok(Ok(None)) => ctx.outcome("long-run count exact across 2^24", 1),
+    }
+    if ctx.tier.thorough() {
+        let total = (lim + 8) as usize;
+        let case = json!({"layer": "long", "what": "run_progress of 2^24+8 transitions"});
+        ctx.evals(1);
+        ctx.state(hash_str(&case.to_string()));
+        ctx.transitions(2 * total as u64);
+        let want = catch(|| CSampler::new(1).run(total, 0).map(|a| hash_of(&a.iter().map(|x| x.to_bits()).collect::<Vec<u64>>())).map_err(|e| e.to_string()));
+        let (got, hung) = with_bounded_reporter(|| catch(|| CSampler::new(1).run_progress(total, 0).map(|(a, _)| hash_of(&a.iter().map(|x| x.to_bits()).collect::<Vec<u64>>())).map_err(|e| e.to_string())));
+        match (want, got) {
+            _ if hung => ctx.violation(Violation::new("C10:hang(long run)", format!("run_progress({total}, 0): the reporter does not exit after the worker finished"), case)),
+            (Ok(Ok(a)), Ok(Ok(b))) => {
+                if a != b {
+                    ctx.violation(Violation::new("C10:draws-differ(long run)", format!("run_progress({total}, 0) returns other draws than run"), case));
+                } else {
+                    ctx.outcome("long run_progress ok", 1);
+                }
+            }
+            (a, b) => ctx.violation(Violation::new("C10:error(long run)", format!("run: {a:?}; run_progress: {b:?}"), case)),
+        }
+    }
+}
+
 pub fn run(ctx: &Ctx) {
-    ctx.rule("layer 1 (E2): ALL schedules of the real run_progress (worker transitions, reporter iterations, stats-timer firings as choices) with at most the stated number of deviations from the default (workers to completion in index order, reporter last), N=1..3 chains direct (core and NUTS), arrival-order reduction for N in {5,6,7,11,16,48}; oracle per execution: returns, draws == run's, RunStats == RunStats::from(draws), no hang within ceil(N/5)+3 reporter iterations after the last worker. layer 2 (E5): BFS of the abstract reporter for every N=1..48 (invariants, progress, bounded exit) + conformance replay of model paths on the real reporter, state by state. layer 3: receiver dropped before / after transition k / after the call for every k; reporter killed at iteration 0..2; precision grid. states = distinct reporter states (abstract + observed); transitions = scheduling decisions + model transitions; traces_validated = executions of the real protocol");
-    let layers = std::env::var("MC_C10_LAYERS").unwrap_or_else(|_| "precision,receiver,reporter,direct,arrival,model".to_string());
+    ctx.rule("layer 1 (E2): ALL schedules of the real run_progress (worker transitions, reporter iterations, stats-timer firings as choices) with at most the stated number of deviations from the default (workers to completion in index order, reporter last), N=1..3 chains direct (core and NUTS), arrival-order reduction for N in {5,6,7,11,16,48}; oracle per execution: returns, draws == run's, RunStats == RunStats::from(draws), no hang within ceil(N/5)+3 reporter iterations after the last worker. layer 2 (E5): BFS of the abstract reporter for every N=1..48 (invariants, progress, bounded exit) + conformance replay of model paths on the real reporter, state by state. layer 3: receiver dropped before / after transition k / after the call for every k; reporter killed at iteration 0..2; precision grid; long runs (tracker count exact across 2^24 updates; thorough: a real run_progress of 2^24+8 transitions). states = distinct reporter states (abstract + observed); transitions = scheduling decisions + model transitions; traces_validated = executions of the real protocol");
+    let layers = std::env::var("MC_C10_LAYERS").unwrap_or_else(|_| "precision,long,receiver,reporter,direct,arrival,model".to_string());
     let on = |l: &str| layers.split(',').any(|x| x == l);
     let t0 = std::time::Instant::now();
     let mut lap = |name: &str| eprintln!("[C10] layer {name} done at {:.1}s", t0.elapsed().as_secs_f64());
@@ -1114,6 +1172,10 @@ pub fn run(ctx: &Ctx) {
         precision_grid(ctx);
         verif::set_sched(None);
         lap("precision");
+    }
+    if on("long") {
+        long_runs(ctx);
+        lap("long");
     }
     if on("receiver") {
         receiver_faults(ctx);
@@ -1163,6 +1225,7 @@ pub fn check_case(ctx: &Ctx, case: &Value) {
         Some("reporter-fault") => reporter_faults(ctx),
         Some("receiver-fault") => receiver_faults(ctx),
         Some("precision") => precision_grid(ctx),
+        Some("long") => long_runs(ctx),
         _ => {}
     }
 }
